@@ -333,6 +333,11 @@ def grid(tier):
         for pitch in (1.0, 2.5):
             for dz in (0.4, 5.2, -5.2):    # |dz| / pitch away from integers: the turn count is int(|dz| / pitch)
                 out.append((res, lambda s, d, pitch=pitch, dz=dz: thread_case(s, d, 6.0, 20, dz, pitch)))
+        # a Z travel that is an exact decimal multiple of the pitch (8 / 0.8 is 10 turns, in real numbers and in floating point division alike;
+        # the start heights of this grid are binary fractions, so the travel the builder sees is exactly dz)
+        for pitch, dz in ((0.8, 8.0), (0.4, -2.0), (0.1, 1.0), (0.2, 5.0)):
+            assert abs(dz) / pitch == round(abs(dz) / pitch)
+            out.append((res, lambda s, d, pitch=pitch, dz=dz: thread_case(s, d, 6.0, 20, dz, pitch)))
         splines = [[(5, 5)], [(5, 5), (10, 0)], [(5, 5, 2), (10, 0, 2), (15, 5, 0)], [(5, 5), (5, 5), (10, 0)],
                    [(6, 0), (6, 6), (0, 0)], [(5, 5), (10, 0), (5, 5), (0, 10)], [(4, 0, 1), (8, 3, 2), (4, 6, 3), (0, 3, 4)],
                    # motion dominated by Z (XY advance per control point well below the resolution)
